@@ -31,6 +31,7 @@ class Run:
         self.ledger = ""
         self.stuck = "STUCK" in header
         self.trace = []
+        self.vfinal = None  # (initial word, final word) of the raw version object
 
 
 def parse(text):
@@ -65,7 +66,62 @@ def parse(text):
             cur.ledger = l
         elif l.startswith("T "):
             cur.trace.append(l)
+        elif l.startswith("VFINAL "):
+            w = l.split()
+            cur.vfinal = (int(w[1], 16), int(w[2], 16))
     return runs
+
+
+# ---------------------------------------------------------------- raw version object (C17)
+def vfields(w):
+    return {"vinsert": w & 0x1fffffff, "locked": (w >> 29) & 1, "inserting": (w >> 30) & 1, "splitting": (w >> 31) & 1,
+            "vsplit": (w >> 32) & 0x1fffffff, "deleted": (w >> 61) & 1, "root": (w >> 62) & 1, "border": (w >> 63) & 1}
+
+
+def check_version(run):
+    """oracle for the raw version-object workloads: exclusion, clean stable reads, and the final
+    word predicted from the completed operations (counters count flagged unlocks mod 2^29, every
+    other field holds what its only writer wrote last)"""
+    out = []
+    init, final = run.vfinal
+    fi, ff = vfields(init), vfields(final)
+    n_ins = n_split = 0
+    last = {}          # field -> {tid: last value written}
+    for h in sorted(run.h, key=lambda h: (h["tid"], h["idx"])):
+        op, res = h["op"], h["res"]
+        if op[0] == "vcs":
+            if "MUTEX" in res:
+                out.append(("mutex", "two threads were inside the critical section guarded by lock(): tid %d op %d" % (h["tid"], h["idx"])))
+            fl = op[1] if len(op) > 1 else ""
+            n_ins += ("i" in fl) + fl.count("n")
+            n_split += "s" in fl
+            for c in fl:
+                if c in "dD":
+                    last.setdefault("deleted", {})[h["tid"]] = 1 if c == "d" else 0
+        elif op[0] == "vinc":
+            n_ins += 1
+        elif op[0] == "vroot":
+            last.setdefault("root", {})[h["tid"]] = int(op[1])
+        elif op[0] == "vborder":
+            last.setdefault("border", {})[h["tid"]] = int(op[1])
+        elif op[0] == "vstable":
+            w = vfields(int(res.split()[1], 16))
+            if w["locked"] or w["inserting"] or w["splitting"]:
+                out.append(("stable", "get_stable_version returned the locked or dirty word %s" % res.split()[1]))
+    if run.stuck:
+        return out
+    if ff["locked"] or ff["inserting"] or ff["splitting"]:
+        out.append(("versionfinal", "after all operations the word is still locked or dirty: %016x" % final))
+    if ff["vinsert"] != (fi["vinsert"] + n_ins) % (1 << 29):
+        out.append(("versionfinal", "insert counter %d, expected %d + %d mod 2^29 (word %016x -> %016x)" % (ff["vinsert"], fi["vinsert"], n_ins, init, final)))
+    if ff["vsplit"] != (fi["vsplit"] + n_split) % (1 << 29):
+        out.append(("versionfinal", "split counter %d, expected %d + %d mod 2^29 (word %016x -> %016x)" % (ff["vsplit"], fi["vsplit"], n_split, init, final)))
+    for f in ("deleted", "root", "border"):
+        writers = last.get(f, {})
+        want = fi[f] if not writers else (list(writers.values())[0] if len(writers) == 1 else None)
+        if want is not None and ff[f] != want:
+            out.append(("versionfinal", "field %s is %d, its only writer left %d (word %016x -> %016x)" % (f, ff[f], want, init, final)))
+    return out
 
 
 # ---------------------------------------------------------------- linearizability of one key
@@ -118,10 +174,14 @@ def check_run(run, pre, classes):
         out.append(("progress", "the scheduler found no progress (deadlock or livelock): " + run.header))
     if "REPLAY-INFEASIBLE" in run.header:
         out.append(("replay", "replay schedule infeasible"))
+    if run.vfinal is not None:
+        out.extend(check_version(run))
     for e in run.walkerr:
         out.append(("structure", e))
     if run.ledger and " errs 0" not in run.ledger:
         out.append(("ledger", run.ledger))
+    if run.ledger and not run.stuck and not run.ledger.startswith("LEDGER live 0 "):
+        out.append(("leak", "library-owned blocks still allocated after fin(): " + run.ledger))
     for h in run.h:
         if h["op"][0] == "hold" and not h["res"].endswith("changed 0"):
             out.append(("epoch", "memory handed out inside a session changed before leave: " + h["res"]))
@@ -204,7 +264,9 @@ def check_run(run, pre, classes):
                     out.append(("order", "%s returned key outside the interval: %s" % (o, k.hex())))
             # fold into per-key reads: returned pairs were current at some instant; keys of the
             # covered part that were not returned were absent at some instant
-            limited = (o == "scan" and ((mx != 0 and len(keys) >= mx) or r2l)) or (o == "iscan" and not complete_status)
+            # (a right-to-left scan returns the largest key of the interval: an empty result says that
+            # every key of the interval was absent at some instant)
+            limited = (o == "scan" and ((mx != 0 and len(keys) >= mx) or (r2l and keys))) or (o == "iscan" and not complete_status)
             for k, v in zip(keys, vals):
                 if v is None:
                     add(k, (h["inv"], h["ret"], "present", None, None))
